@@ -142,6 +142,11 @@ def gen_fontpal():
     d('fontMinLen', int(m.group(1)))
     _need('u16::from_le_bytes(data[0..2].try_into().unwrap())' in fb and 'u32::from_le_bytes(data[0..4].try_into().unwrap())' in fb
           and fb.index('PSF1_MAGIC') < fb.index('PSF2_MAGIC') < fb.index('load_plain_font'), 'BitFont::from_bytes: dispatch changed')
+    # VARIANT FLAG: is a PSF1 character size of 0 rejected before `load_psf1`?  (`bitfont_size_nonzero` is proved from it;
+    # a font of height 0 in slot 0 makes `parse_with_parser` divide by zero when it sizes a sixel layer)
+    zm = re.search(r'if magic16 == BitFont::PSF1_MAGIC \{\s*(if data\[3\] == 0 \{\s*return Err\([^;]*\);\s*\}\s*)?return Ok\(BitFont::load_psf1\(font_name, data\)\);', fb)
+    _need(zm, 'BitFont::from_bytes: PSF1 arm not recognised')
+    flag('psf1ZeroRejected', zm.group(1) is not None)
     cc = fn_body(s, 'calculate_checksum')
     _need('for ch in 0..self.length {' in cc, 'calculate_checksum: loop header changed')
 
